@@ -977,3 +977,18 @@ package control
 //@   at call NewNormalizedProgram#1 assert a0 == routingA.Rules && a1 == routingA.Fallback
 //@   at call NewNormalizedProgram#1 assert len(a2) == 4 && typeis(a2[0], "*routing.AliasOptimizer") && typeis(a2[1], "*routing.DatReaderOptimizer") && typeis(a2[2], "*routing.MergeAndSortRulesOptimizer") && typeis(a2[3], "*routing.DeduplicateParamsOptimizer")
 //@   at call NewRoutingMatcherBuilderFromProgram#1 assert a1 == routingProgram && a2 == outboundName2Id
+
+// C10 (mirror after a rollback): the tracker's belief of what the kernel table holds is what syncOwner
+// compares against (an address whose bitmap is unchanged is NOT written again). So whoever empties the kernel
+// table behind the tracker's back must also empty the tracker before the cache is replayed - otherwise the
+// replay finds nothing to write and the table stays empty while the cache entries are alive.
+// RebuildReloadDatapath (rollback of a failed staged reload, old generation, populated tracker): the tracker
+// of this core is reset after the table was cleared and before the replay.
+//@ func (*ControlPlane).RebuildReloadDatapath
+//@   anchorsonly
+//@   nonilcheck
+//@   dyncalls noeffect
+//@   modifies *
+//@   at call domainRoutingTracker).reset#1 assert a0 == c.core.domainRouting && calls("clearReloadDomainRoutingMap") == 1 && calls("replayDnsReloadCache") == 0
+//@   at call replayDnsReloadCache#1 assert calls("clearReloadDomainRoutingMap") == 1 && calls("domainRoutingTracker).reset") == 1
+//@   at return 4 assert calls("replayDnsReloadCache") == 1
